@@ -404,21 +404,25 @@ func (rt *runtime) cmplEvaluateNodeTryStatement(node *nodeTryStatement) Value {
 	})
 
 	if exep && node.catch != nil {
-		outer := rt.scope.lexical
-		rt.scope.lexical = rt.newDeclarationStash(outer)
-		defer func() {
-			rt.scope.lexical = outer
-		}()
-		// TODO If necessary, convert TypeError<runtime> => TypeError
-		// That, is, such errors can be thrown despite not being JavaScript "native"
-		// strict = false
-		rt.scope.lexical.setValue(node.catch.parameter, tryCatchValue, false)
+		// The catch parameter is in scope for the catch block only (ES5 12.14):
+		// the finally block runs in the enclosing environment again.
+		func() {
+			outer := rt.scope.lexical
+			rt.scope.lexical = rt.newDeclarationStash(outer)
+			defer func() {
+				rt.scope.lexical = outer
+			}()
+			// TODO If necessary, convert TypeError<runtime> => TypeError
+			// That, is, such errors can be thrown despite not being JavaScript "native"
+			// strict = false
+			rt.scope.lexical.setValue(node.catch.parameter, tryCatchValue, false)
 
-		// FIXME node.CatchParameter
-		// FIXME node.Catch
-		tryCatchValue, exep = rt.tryCatchEvaluate(func() Value {
-			return rt.cmplEvaluateNodeStatement(node.catch.body)
-		})
+			// FIXME node.CatchParameter
+			// FIXME node.Catch
+			tryCatchValue, exep = rt.tryCatchEvaluate(func() Value {
+				return rt.cmplEvaluateNodeStatement(node.catch.body)
+			})
+		}()
 	}
 
 	if node.finally != nil {
